@@ -62,7 +62,7 @@ def flat(m):
 # cells with exactly known (rational) positions
 # --------------------------------------------------------------------------
 
-def rational_cell(name, lat, symbols, pos, masses=None, magmoms=None, centring="P"):
+def rational_cell(name, lat, symbols, pos, masses=None, magmoms=None, centring="P", labelled=False):
     from phonopy.structure.atoms import PhonopyAtoms
 
     orig = pos
@@ -71,7 +71,7 @@ def rational_cell(name, lat, symbols, pos, masses=None, magmoms=None, centring="
     atoms = PhonopyAtoms(cell=np.array(lat, dtype="double"), symbols=list(symbols),
                          scaled_positions=np.array([[float(x) for x in p] for p in pos], dtype="double"),
                          masses=masses, magnetic_moments=magmoms)
-    return dict(name=name, atoms=atoms, pos=pos, centring=centring)
+    return dict(name=name, atoms=atoms, pos=pos, centring=centring, labelled=labelled)
 
 
 def fixed_cells():
@@ -81,6 +81,15 @@ def fixed_cells():
                              masses=[1.0, 4.5, 2.0]))
     out.append(rational_cell("tric2mag", [[2.5, 0, 0.5], [-0.25, 3.0, 0], [0.125, -0.5, 3.5]], ["Fe", "Fe"],
                              [[Fr(0), Fr(0), Fr(0)], [Fr(1, 2), Fr(7, 16), Fr(9, 8)]], magmoms=[1.0, -1.0]))
+    # extended symbols: index-labelled species of one element are different species (Cr1 != Cr2)
+    cub = [[3.0, 0, 0], [0, 3.0, 0], [0, 0, 3.0]]
+    body = [[0, 0, 0], [Fr(1, 2), Fr(1, 2), Fr(1, 2)]]
+    out.append(rational_cell("lab_cr12", cub, ["Cr1", "Cr2"], body, masses=[52.0, 52.0], labelled=True))
+    out.append(rational_cell("lab_cl_cl1", cub, ["Cl", "Cl1"], body, masses=[35.45, 35.45], labelled=True))
+    out.append(rational_cell("lab_fe12_mag", cub, ["Fe1", "Fe2"], body, masses=[55.845, 55.845], magmoms=[1.0, -1.0], labelled=True))
+    out.append(rational_cell("lab_cr12_dm", [[3.0, 0, 0], [0, 3.0, 0], [0, 0, 4.0]], ["Cr1", "Cr2"], body, masses=[52.0, 53.0], labelled=True))
+    out.append(rational_cell("lab_cu_fcc", [[4.0, 0, 0], [0, 4.0, 0], [0, 0, 4.0]], ["Cu1", "Cu1", "Cu2", "Cu2"],
+                             [[0, 0, 0], [0, Fr(1, 2), Fr(1, 2)], [Fr(1, 2), 0, Fr(1, 2)], [Fr(1, 2), Fr(1, 2), 0]], masses=[63.5] * 4, labelled=True))
     for nm in ["fcc", "bcc", "nacl_interleaved", "ortho_C", "ortho_A", "rhombo_hex", "diamond", "bct", "mono_C", "hcp", "cscl", "sc", "nacl"]:
         lat, sym, pos, cen = gen.PROTOTYPES[nm]
         out.append(rational_cell(nm, lat, sym, pos, centring=cen))
@@ -292,6 +301,10 @@ def oracle_primitive(sc, pmat, prim):
         else:
             continue
         break
+    for r in rows:
+        if any(_attr_equal(sc, sc, i, r[i]) for i in range(ns)):
+            fails.append(("perm-species", "a stored translation permutation maps an atom onto an atom of a different species/mass/moment"))
+            break
     sp = sc.scaled_positions
     for r in rows:
         d = sp[list(r)] - sp
@@ -387,10 +400,11 @@ def main(run):
     run.proof_step(leancheck=thorough)
     run.cov["rule"] = (
         "supercell matrices: every integer matrix with entries in {-1,0,1} and det 1..4 (quick; 5904 matrices, exhaustive) plus a seeded "
-        "sample of those with entries in {-1,0,1,2}, |det| <= 8; thorough: ALL 192144 matrices with entries in {-1,0,1,2} and 1 <= |det| <= 8 "
+        "sample of those with entries in {-1,0,1,2}, |det| <= 8 and of random matrices with entries in [-5,5], |det| <= 12; thorough: ALL 192144 matrices with entries in {-1,0,1,2} and 1 <= |det| <= 8 "
         "through SNF3x3 and all 96072 with det 1..8 through both supercell constructions; each with the classic and "
         "the Smith-normal-form construction on cells with rational positions (denominators 16 for generated cells, <= 300 for prototypes; prototypes of all centrings and random "
-        "triclinic cells with interleaved species, custom masses, magnetic moments, positions outside [0,1)); primitive matrices "
+        "triclinic cells with interleaved species, custom masses, magnetic moments, positions outside [0,1), index-labelled species of one "
+        "element such as Cr1/Cr2 with equal and different masses); primitive matrices "
         "P/F/I/A/C/R/auto. Compared exactly with the Lean model: SNF D,P,Q, xgcd triples, index maps, permutations; positions as "
         "rationals (|d| <= 1e-9 modulo 1). The tiling statement itself is evaluated on every implementation result. "
         "Non-trivial = supercell matrix not diagonal (or primitive index > 1 for primitive cases); distinct by (cell, matrix, route).")
@@ -469,6 +483,13 @@ def main(run):
         run.count("oracle-xgcd", section="oracle")
         if r != a * s_ + b * t or r == 0 or a % r or b % r or abs(r) != np.gcd(a, b):
             run.violation("Xgcd.run", "not-a-bezout-triple", "r,s,t = %d,%d,%d for (%d,%d)" % (r, s_, t, a, b), dict(a=a, b=b))
+
+    # ------------------------------------------------------------ centring tables
+    from phonopy.structure.cells import get_primitive_matrix_by_centring
+
+    for cen in ("P", "F", "I", "A", "C", "R", "X"):
+        lines.append("centring " + cen)
+        meta.append(("centring", cen, get_primitive_matrix_by_centring(cen)))
 
     # ------------------------------------------------------------ supercells
     def do_supercell(c, S, with_model, prim=None, api=False):
@@ -561,6 +582,9 @@ def main(run):
             pmu = [[Fr(x) for x in r] for r in prim]
         pm = fmul(Sinv, pmu)  # relative to the supercell
         consistent = auto or not isinstance(prim, str) or prim == c["centring"] or prim == "P"
+        if c.get("labelled"):
+            # labels make the cell primitive: anything that folds labelled atoms together must be rejected
+            consistent = (isinstance(prim, str) and prim == "P")
         for old, sc in scs.items():
             site = "get_primitive"
             pr, exc = try_impl(get_primitive, sc, ffloat(pm))
@@ -609,7 +633,7 @@ def main(run):
     mats = list(quick_mats)
     for m in mats:
         do_supercell(cells["tric3"], m, with_model=True)
-    for m in mats:
+    for m in (mats if thorough else mats[rng.randrange(3)::3]):  # second cell: every third matrix in quick, all in thorough
         do_supercell(rcells[0], m, with_model=False)
     if thorough:
         # bounded-exhaustive: every matrix with entries in {-1,0,1,2} and det 1..8, both routes, tiling oracle
@@ -633,6 +657,16 @@ def main(run):
         c = rng.choice(pool)
         if abs(d) * len(c["atoms"]) > 64:
             continue
+        do_supercell(c, m, with_model=True)
+    # wider entries: random matrices with entries in [-3,3] (and a few up to 5), |det| <= 12
+    for _ in range(1500 if thorough else 150):
+        lim = 3 if rng.random() < 0.8 else 5
+        m = np.array([[rng.randint(-lim, lim) for _ in range(3)] for _ in range(3)])
+        d = int(round(np.linalg.det(m)))
+        c = rng.choice(pool)
+        if d == 0 or abs(d) > 12 or abs(d) * len(c["atoms"]) > 64:
+            continue
+        run.count("wide-entry matrices")
         do_supercell(c, m, with_model=True)
     # diagonal, negative-entry and malformed stream
     for dg in [(1, 1, 1), (2, 1, 1), (1, 2, 3), (2, 2, 2), (-1, -1, 1), (-1, 1, -1), (1, -2, -1), (-1, 1, 1), (-2, -1, -1)]:
@@ -682,6 +716,16 @@ def main(run):
                 if exc is None:
                     for kl, what in oracle_primitive(sc, pmf, pr):
                         run.violation("get_primitive", kl + "-near-tolerance", what, case)
+    # labelled species of one element x primitive matrices that would merge them: rejected, or every map entry keeps the symbol
+    for name in ("lab_cr12", "lab_cl_cl1", "lab_fe12_mag", "lab_cr12_dm", "lab_cu_fcc"):
+        c = cells[name]
+        prims = ["I", "P", "auto", CENTRING["I"]] if name != "lab_cu_fcc" else ["F", "I", "P", "auto", CENTRING["F"], CENTRING["C"]]
+        for S in [np.eye(3, dtype=int), np.diag([2, 1, 1]), np.array([[1, 1, 0], [0, 1, 0], [0, 0, 2]]), np.array([[0, 1, 1], [1, 0, 1], [1, 1, 0]])]:
+            for pmx in prims:
+                if pmx == "auto" and c["atoms"].magnetic_moments is not None:
+                    continue
+                run.count("labelled-species cases")
+                do_supercell(c, S, with_model=True, prim=pmx, api=(isinstance(pmx, str) and pmx != "auto"))
     # explicit primitive matrices: unit cell = supercell of a smaller cell
     for S0 in ([[2, 0, 0], [0, 1, 0], [0, 0, 1]], [[1, 1, 0], [-1, 1, 0], [0, 0, 1]], [[1, 0, 1], [0, 2, 0], [0, 1, 1]]):
         base = cells["tric3"]
@@ -736,6 +780,13 @@ def main(run):
                 run.broke("correspondence", "isCompleteResidueSystem = false on the implementation's lattice points", info)
                 run.violation("get_supercell(is_old_style=%s)" % info["old"], "not-a-complete-residue-system",
                               "lattice points of the images of atom 0 are not a complete irredundant system of Z^3/SZ^3", info)
+        elif kind == "centring":
+            if (o == "none") != (impl is None):
+                run.broke("correspondence", "get_primitive_matrix_by_centring(%r): model %s, implementation %r" % (info, o, impl))
+            elif impl is not None:
+                mm = np.array([float(Fr(x)) for x in o.split()]).reshape(3, 3)
+                if np.abs(mm - impl).max() > 1e-15 or abs(np.linalg.det(impl) * round(1 / np.linalg.det(impl)) - 1) > 1e-12:
+                    run.broke("correspondence", "get_primitive_matrix_by_centring(%r) differs from the model's table" % info, dict(impl=impl.tolist(), model=o))
         elif kind == "framecheck":
             run.count("frame-certificates", section="correspondence")
             if o != "1":
@@ -748,8 +799,8 @@ def main(run):
                 run.violation("get_supercell(is_old_style=%s)" % info["old"], "maps", "s2u_map/u2s_map fail the well-formedness certificate", info)
         elif kind == "ptables":
             run.count("table-certificates", section="correspondence")
-            if o != "1" and info["consistent"]:
-                run.broke("correspondence", "PTables.wf = false on the implementation's p2s/s2p/atomic_permutations", info)
+            if o != "11" and info["consistent"]:
+                run.broke("correspondence", "PTables.wf/wfSmall = %s on the implementation's p2s/s2p/atomic_permutations" % o, info)
                 run.violation("get_primitive", "perm-group", "primitive tables fail the well-formedness certificate", info)
         elif kind == "supercell":
             sc, exc = impl
@@ -779,7 +830,8 @@ def main(run):
         if ps is None or ps["err"] is not None or ps["ns"] != len(sc) or posdiff(sc.scaled_positions, ps["pos"]) > TOL:
             run.count("primitive skipped (supercell mismatch)", section="correspondence")
             continue
-        nums = [int(x) for x in sc.numbers]
+        symid = {}
+        nums = [symid.setdefault(x, len(symid)) for x in sc.symbols]  # extended symbols ('Cr1' != 'Cr2'), as the code compares them
         # species, mass and moment together decide `symbols` only through the symbol: the code compares symbols
         lines2.append(line_primitive(ps["pos"], nums, info["pm"]))
         meta2.append((info, sc, pr, exc))
@@ -811,15 +863,15 @@ def main(run):
             run.broke("correspondence", "get_primitive: positions differ from the model by %.3g (mod 1)" % dd, info)
     run.cov["correspondence"]["compared"] = ncmp
     run.cov["exhaustive"] = False
-    run.cov["exhaustive_part"] = ("all %d integer matrices with entries in {-1,0,1} and det 1..4, both routes, 2 cells" % len(quick_mats)
+    run.cov["exhaustive_part"] = ("all %d integer matrices with entries in {-1,0,1} and det 1..4, both routes (a second cell on every third in quick, all in thorough)" % len(quick_mats)
                                   + ("; all %d matrices with entries in {-1,0,1,2}, 1<=|det|<=8 (SNF3x3), det 1..8 (supercells)" % len(big) if thorough else ""))
     run.cov["partial"] = [
-        "FullStatement_frame (classic route: the surrounding frame meets every residue class for EVERY integer matrix) is not a theorem; "
-        "frame_complete_partial holds under the decidable frameComplete, evaluated in Lean for every matrix used, next to the certificate "
-        "isCompleteResidueSystem on the implementation's atoms and the tiling oracle",
-        "FullStatement_snf_result (positivity of the finished diagonal by construction) is not a theorem: decided per case by isSNF; "
+        "FullStatement_snf_flags: that the two ignored _first()/_second() results inside _finalize are always True (finOk) is not a theorem; "
+        "snf_result (diagonal, positive, product = |det|, unimodular) is conditional on finished/xok/finOk, which the run checks on every "
+        "matrix; termination (snf_terminates) and xok for divisors <= 1000 (xgcd_terminates) are theorems",
+        "trim_exact for the classic route (the sequential overlap removal keeps one atom per class) is carried by the residue-system "
+        "certificate evaluated on the implementation's atoms; completeness of the frame itself is a theorem (frame_complete)",
         "the textbook divisibility chain is false for this algorithm (snf_divisibility_chain_counterexample) and not needed",
-        "snf termination (the code's loop is unbounded): theorems are conditional on finished/xok/finOk, which the run checks on every matrix",
     ]
     run.sample(dict(kind="supercell", request=next(l for l in lines if l and l.startswith("supercell"))[:300]))
     run.sample(dict(kind="snf", request=lines[0]))
